@@ -2,7 +2,7 @@ package main
 
 // C13: parallel query evaluation and loading are free of data races.
 //
-// Static tie: the translator (/verif/translator, go/ast) re-extracts the fact base of every goroutine
+// Static tie: the translator (/verif/translator13, go/ast) re-extracts the fact base of every goroutine
 // body of lib/query and lib/cli; the shard compares it inside Coq with the one the access summaries
 // were written for (Harness/H13.v expected_sites) and checks that every site is covered by a theorem.
 // Dynamic tie: this runner is built with -race; it re-executes itself once per workload with
@@ -66,7 +66,7 @@ func repoDir() string {
 func c13Translate(out string) (sites []c13Site, coq string, err error) {
 	bin := filepath.Join(out, "translator.bin")
 	cmd := exec.Command("go", "build", "-o", bin, ".")
-	cmd.Dir = filepath.Join(verifRoot(), "translator")
+	cmd.Dir = filepath.Join(verifRoot(), "translator13")
 	cmd.Env = append(os.Environ(), "CGO_ENABLED=0", "GOFLAGS=-mod=mod", "GOPROXY=off", "GOSUMDB=off", "GOTOOLCHAIN=local")
 	if b, e := cmd.CombinedOutput(); e != nil {
 		return nil, "", fmt.Errorf("translator build failed: %v: %s", e, b)
